@@ -1,3 +1,33 @@
-From CandidV Require Import model.Text.
-Theorem C11_placeholder : True. Proof. exact I. Qed.
-Print Assumptions C11_placeholder.
+(* C11 -- Printing a value as Candid text and parsing it back returns the same value (character level).
+   The value-level statement (printer token stream vs grammar) is checked on the implementation by a direct
+   predicate; the theorems here cover what the predicate can only sample: EVERY Unicode scalar in text, field
+   and method names, EVERY byte in blobs, numbers of ANY size. *)
+From Coq Require Import List NArith.
+From CandidV Require Import model.Text proofs.TextProofs.
+Open Scope N_scope.
+
+(* text literals: for every list of scalars, whichever scalars the printer decides to write literally or as
+   \u{..} escapes (the [bool] next to each scalar: Unicode tables), the lexer returns exactly its UTF-8 bytes *)
+Theorem C11_string : forall s rest, Forall (fun cl => is_scalar (fst cl) = true) s ->
+  lex_string (pp_text s ++ rest) = Ok (utf8 (map fst s), rest).
+Proof. exact lex_pp_text. Qed.
+
+(* blobs: every byte string, through both branches of the printer *)
+Theorem C11_blob : forall bs rest, Forall (fun b => b < 256) bs -> lex_string (pp_blob bs ++ rest) = Ok (bs, rest).
+Proof. exact lex_pp_blob. Qed.
+
+(* numbers: digit grouping with '_' is undone by the lexer, for digit strings of any length *)
+Theorem C11_number : forall ds, Forall (fun d => d <> 95) ds -> strip_underscores (pp_num_str ds) = ds.
+Proof. exact strip_pp_num. Qed.
+
+(* non-vacuity: NUL followed by 'a' (the repaired defect), quotes, backslash, a non-BMP scalar; a quoted keyword *)
+Example C11_ex : lex_string (pp_text [(0, false); (97, true); (34, false); (92, false); (128512, true); (1114111, false)])
+                 = Ok ([0; 97; 34; 92; 240; 159; 152; 128; 244; 143; 191; 191], []).
+Proof. vm_compute. reflexivity. Qed.
+Example C11_ex_keyword : ident_string [(111, true); (112, true); (116, true)] = [34; 111; 112; 116; 34]   (* opt -> "opt" *)
+                      /\ ident_string [(97, true); (95, true); (49, true)] = [97; 95; 49].                  (* a_1 bare *)
+Proof. vm_compute. split; reflexivity. Qed.
+
+Print Assumptions C11_string.
+Print Assumptions C11_blob.
+Print Assumptions C11_number.
